@@ -169,6 +169,7 @@ type Exec struct {
 	propsOver  []string
 	topEnv     *Env
 	csCases    map[int][]oblCase // callsite clauses: cases collected per clause (keyed by its line)
+	csSeq      map[int]int       // generation-order position of each clause's first call site
 	sweep      bool
 	pending    *pendingStore
 	errflow    bool
